@@ -116,6 +116,14 @@ def main():
                             wx, wz = em.get_weights(code, p)
                             res['weights'].append({'cls': cls, 'size': list(s), 'name': nm, 'axis': ax, 'dir': [a, b, c], 'p16': pk,
                                                    'wx': [float(v) for v in wx], 'wz': [float(v) for v in wz], 'dists': rec['impl']})
+                            if pk == rsel[-1] or pk == [r for r in rsel if 0 < r < 16][-1]:
+                                # history: the same (model object, code object, rate) asked again after sampling and after the weights
+                                # were computed once - the distribution and the weights must be what they were
+                                wx, wz = em.get_weights(code, p)
+                                res['weights'].append({'cls': cls, 'size': list(s), 'name': nm, 'axis': ax, 'dir': [a, b, c], 'p16': pk,
+                                                       'wx': [float(v) for v in wx], 'wz': [float(v) for v in wz], 'dists': rec['impl'], 'again': True})
+                                pi, px, py, pz = em.probability_distribution(code, p)
+                                res['dists'].append(dict(rec, again=True, impl=[[fr(pi[i]), fr(px[i]), fr(py[i]), fr(pz[i])] for i in range(n)]))
                 # BP-OSD decoder priors, on the smallest size
                 s0 = sizes[0]
                 code = codes[s0]
